@@ -27,12 +27,16 @@ def Typ3.ofCode : Nat → Option Typ3
 
 /-! ### uvarint (encoding/binary.PutUvarint / Uvarint) -/
 
-/-- `binary.PutUvarint`: little-endian base-128, fuel-free on `Nat`. -/
-def encUvarint (n : Nat) : Bytes :=
-  if h : n < 128 then [UInt8.ofNat n]
-  else UInt8.ofNat (n % 128 + 128) :: encUvarint (n / 128)
-termination_by n
-decreasing_by omega
+/-- `binary.PutUvarint` loop with explicit fuel (structural, so that the kernel
+can evaluate it); `fuel = n` always suffices because `n / 128 < n`. -/
+def encUvarintF : Nat → Nat → Bytes
+  | 0, n => [UInt8.ofNat n]
+  | f + 1, n =>
+    if n < 128 then [UInt8.ofNat n]
+    else UInt8.ofNat (n % 128 + 128) :: encUvarintF f (n / 128)
+
+/-- `binary.PutUvarint`: little-endian base-128. -/
+def encUvarint (n : Nat) : Bytes := encUvarintF n n
 
 /-- `binary.Uvarint` loop: `i` = index of the byte, `s` = shift, `x` = accumulator.
 Overflow (`i == 10`, or the 10th byte `> 1`) and a buffer that ends inside the
